@@ -94,7 +94,7 @@ CHECKS = {
         tech="deviation-bounded DFS over environment answers (Go map-iteration start) on the real code via a runtime overlay, plus entry-point/process differential"),
     "C18": dict(
         cat="model_checking", ref="4/C18",
-        text="One logical binding environment (ints, floats, strings, bool, nil, flat/nested/empty lists, maps, list of maps; ~60 value-tree nodes) is realised in Go representations chosen independently at every node (numeric width, Drop by value or by pointer, pointer, typed slice, fixed array, typed map, ordered YAML map, []byte) and rendered through 28 templates that use each binding only in the positions the statement names; exploration is deviation-bounded: every assignment with <=1 (quick) / <=2 (thorough) non-default nodes among those a template uses. The oracle is differential - the output of the all-generic assignment - so nothing beyond the statement's position list can be demanded.",
+        text="One logical binding environment (ints, floats, strings, bool, nil, flat/nested/empty lists, maps, list of maps; ~60 value-tree nodes) is realised in Go representations chosen independently at every node (numeric width, Drop by value or by pointer, pointer, typed slice, fixed array, typed map, ordered YAML map, []byte) and rendered through 28 templates that use each binding only in the positions the statement names; exploration is deviation-bounded: every assignment with <=1 (quick) / <=3 (thorough) non-default nodes among those a template uses. The oracle is differential - the output of the all-generic assignment - so nothing beyond the statement's position list can be demanded.",
         note="[]byte only printed or as string-filter input; MapSlice only for lookup and size; pointers only at top level or as map values reached by property lookup.",
         tech="deviation-bounded exhaustive enumeration of representation assignments over a value tree with a differential oracle"),
     "C03": dict(
